@@ -5,7 +5,7 @@ from __future__ import annotations
 
 import ast
 
-from sa.cfg import CFG
+from sa.cfg import CFG, no_exc
 from sa.guards import Fact, FactFlow, expr_context_facts
 from sa.loader import (
     AnalysisError, FuncDef, Module, Repo, ancestors, call_name, last_attr, parent, qualname_of, unparse, walk_body,
@@ -718,3 +718,34 @@ def digit_class(check: Check, repo: Repo, modules: list[str], rule: str = "DIGIT
             text = None
         ok = isinstance(text, str) and text.startswith("^") and text.endswith("\\Z") and "[1-9]" in text
         check.ob(rule, pat, f"_re_integer_string = {text!r}", ok, "canonical integer, anchored" if ok else "pattern no longer excludes leading zeros / trailing text")
+
+
+def undefined_never_completes(check: Check, repo: Repo, rule: str = "UNDEFINED-RAISES") -> None:
+    check.rule(
+        rule,
+        "execution.values.coerce_argument: once coerce_input_literal has answered Undefined (the literal is not "
+        "a value of the argument's type) no path reaches the normal end of the function - every path ends in a "
+        "raise (the explicit one after validate_input_literal: the validator is a *different* walk and may "
+        "report nothing where the coercer refused). Falling off the end would return argument values that "
+        "silently lack a required argument",
+    )
+    fn = repo.func("execution.values", "coerce_argument")
+    cfg = CFG(fn)
+    tests = [nd for nd in cfg.nodes if nd.kind == "test" and nd.ast is not None and "coerced_value" in unparse(nd.ast) and "Undefined" in unparse(nd.ast)]
+    if not tests:
+        raise AnalysisError("coerce_argument: test of coerced_value against Undefined not found")
+    n = 0
+    for t in tests:
+        txt = unparse(t.ast)
+        undefined_when = not (" is not " in txt or "!=" in txt)
+        for m, label in cfg.succ.get(t, []):
+            if not (label and label[0] == "cond" and label[2] == undefined_when):
+                continue
+            n += 1
+            reach = cfg.reachable([m], follow=no_exc)
+            ok = cfg.exit not in reach
+            check.ob(rule, t.ast, f"coerce_argument: branch `{txt}` ({'true' if undefined_when else 'false'} edge)", ok,
+                     "every path from here ends in a raise" if ok else
+                     "the function can complete normally although the argument could not be coerced")
+    if n == 0:
+        raise AnalysisError("coerce_argument: Undefined branch not found in the CFG")
